@@ -4,7 +4,7 @@
 (* helpers.extract_pin_cite, add_post_citation, add_defendant,              *)
 (* add_pre_citation, match_on_tokens) over an abstract token list.          *)
 (*                                                                          *)
-(* words: the tokenizer's output, each [k, n]: kind and length in           *)
+(* words: the tokenizer's output, each [k, n, semi]: kind, length in        *)
 (* characters ("w" plain word or space, "cite" citation token, "stopv" the  *)
 (* stop word v., "stop" another stop word, "para" paragraph token, "oth"    *)
 (* id / supra / section token).  Token offsets are cumulative lengths (the  *)
@@ -59,6 +59,7 @@ Scan(words, idx, j, off, lead, trail) ==
                    IN  IF PlaintiffFix THEN o + joined - lead
                        ELSE o + (joined - lead - trail) + 1     \* len(plaintiff_text.strip("( ")) + 1
               ELSE o - words[j].n
+         ELSE IF words[j].semi THEN -1      \* word.endswith(";") (tokens are UserStrings too): string citation
          ELSE Scan(words, idx, j - 1, o, lead, trail)
 
 (* ---- the laws of C02 for one citation record ---- *)
